@@ -332,6 +332,183 @@ Proof.
     + assert (M : Qmax unit D <= Qmax unit opt) by (apply Q.max_le_compat_l; assumption). nra.
 Qed.
 
+(* the raw facts the checker establishes, in pointwise vocabulary (used for the scaled form below) *)
+Lemma check_plan_facts : forall (p q : vec) (C X : mat) (u v : vec) (X' : mat) (delta eps unit : Q),
+  check_plan p q C X u v X' delta eps unit = true ->
+  let n := length p in
+  let m := length q in
+  let D := dual_val p q u v in
+  (forall i j, 0 <= entry X i j) /\
+  (forall i, (i < n)%nat -> Qabs (rsum X m i - nth i p 0) <= delta) /\
+  (forall j, (j < m)%nat -> Qabs (csum X n j - nth j q 0) <= delta) /\
+  feasible p q X' /\
+  dual_feasible n m C u v /\
+  0 <= eps /\
+  cost n m X' C - cost n m X C <= eps * Qmax unit D /\
+  cost n m X C - D <= eps * Qmax unit D.
+Proof.
+  intros p q C X u v X' delta eps unit H n m D.
+  destruct (check_plan_sound p q C X u v X' delta eps unit H) as (A1 & A2 & A3 & A4 & A5 & _).
+  unfold check_plan in H. fold n m in H.
+  apply andb_true_iff in H; destruct H as [H B2].
+  apply andb_true_iff in H; destruct H as [H B1].
+  do 7 (apply andb_true_iff in H; destruct H as [H _]).
+  apply andb_true_iff in H; destruct H as [H He0].
+  apply andb_true_iff in H; destruct H as [H _].
+  apply andb_true_iff in H; destruct H as [H Lv].
+  apply andb_true_iff in H; destruct H as [H Lu].
+  apply andb_true_iff in H; destruct H as [H MX'].
+  apply andb_true_iff in H; destruct H as [MC MX].
+  apply Nat.eqb_eq in Lu. apply Nat.eqb_eq in Lv.
+  apply Qle_bool_iff in He0. apply Qle_bool_iff in B1. apply Qle_bool_iff in B2.
+  assert (ED : dual_value p q u v == D) by (apply dual_value_spec; assumption).
+  assert (EX : inner X C == cost n m X C) by (apply inner_cost; assumption).
+  assert (EX' : inner X' C == cost n m X' C) by (apply inner_cost; assumption).
+  rewrite ED, EX, EX' in B1. rewrite ED, EX in B2.
+  repeat split; try assumption; apply A4.
+Qed.
+
+(* ---------------------------------------------------------------- homogeneity: the instance may be presented scaled
+   The harness hands the checker integers: masses multiplied by s, costs by k (s, k > 0).  The instance that is meant is
+   the unscaled one; acceptance of the scaled literals implies the statements for it. *)
+Definition vsc (c : Q) (v : vec) : vec := map (Qmult c) v.
+Definition msc (c : Q) (X : mat) : mat := map (vsc c) X.
+
+Lemma vsc_length : forall c v, length (vsc c v) = length v.
+Proof. intros. apply map_length. Qed.
+
+Lemma nth_vsc : forall c v i, nth i (vsc c v) 0 == c * nth i v 0.
+Proof.
+  induction v as [|x v IH]; intros i; simpl.
+  - destruct i; ring.
+  - destruct i; [reflexivity | apply IH].
+Qed.
+
+Lemma entry_msc : forall c X i j, entry (msc c X) i j == c * entry X i j.
+Proof.
+  unfold entry. induction X as [|r X IH]; intros i j; simpl.
+  - destruct i; destruct j; simpl; ring.
+  - destruct i; [apply nth_vsc | apply IH].
+Qed.
+
+Lemma rsum_msc : forall c X m i, rsum (msc c X) m i == c * rsum X m i.
+Proof. intros. unfold rsum. rewrite <- bsum_scal. apply bsum_ext. intros. apply entry_msc. Qed.
+
+Lemma csum_msc : forall c X n j, csum (msc c X) n j == c * csum X n j.
+Proof. intros. unfold csum. rewrite <- bsum_scal. apply bsum_ext. intros. apply entry_msc. Qed.
+
+Lemma cost_msc : forall c e n m X C, cost n m (msc c X) (msc e C) == c * e * cost n m X C.
+Proof.
+  intros. unfold cost. rewrite <- bsum_scal. apply bsum_ext. intros i _.
+  rewrite <- bsum_scal. apply bsum_ext. intros j _. rewrite !entry_msc. ring.
+Qed.
+
+Lemma cost_msc_l : forall c n m X C, cost n m (msc c X) C == c * cost n m X C.
+Proof.
+  intros. unfold cost. rewrite <- bsum_scal. apply bsum_ext. intros i _.
+  rewrite <- bsum_scal. apply bsum_ext. intros j _. rewrite entry_msc. ring.
+Qed.
+
+Lemma dual_val_vsc : forall c e p q u v,
+  dual_val (vsc c p) (vsc c q) (vsc e u) (vsc e v) == c * e * dual_val p q u v.
+Proof.
+  intros. unfold dual_val. rewrite !vsc_length.
+  assert (G : forall n a b, bsum n (fun i => nth i (vsc e a) 0 * nth i (vsc c b) 0)
+                            == c * e * bsum n (fun i => nth i a 0 * nth i b 0)).
+  { intros. rewrite <- bsum_scal. apply bsum_ext. intros. rewrite !nth_vsc. ring. }
+  rewrite !G. ring.
+Qed.
+
+Lemma feasible_scale : forall c p q Y, 0 < c -> feasible p q Y -> feasible (vsc c p) (vsc c q) (msc c Y).
+Proof.
+  intros c p q Y Hc (Hpos & Hrow & Hcol). unfold feasible. rewrite !vsc_length. split; [|split].
+  - intros i j Hi Hj. rewrite entry_msc. specialize (Hpos i j Hi Hj). nra.
+  - intros i Hi. rewrite rsum_msc, nth_vsc, (Hrow i Hi). reflexivity.
+  - intros j Hj. rewrite csum_msc, nth_vsc, (Hcol j Hj). reflexivity.
+Qed.
+
+Lemma feasible_unscale : forall c p q Y, 0 < c ->
+  feasible (vsc (/ c) p) (vsc (/ c) q) Y -> feasible p q (msc c Y).
+Proof.
+  intros c p q Y Hc (Hpos & Hrow & Hcol). unfold feasible in *. rewrite !vsc_length in *. split; [|split].
+  - intros i j Hi Hj. rewrite entry_msc. specialize (Hpos i j Hi Hj). nra.
+  - intros i Hi. rewrite rsum_msc, (Hrow i Hi), nth_vsc. field. lra.
+  - intros j Hj. rewrite csum_msc, (Hcol j Hj), nth_vsc. field. lra.
+Qed.
+
+Lemma Qmax_scale : forall a x y, 0 <= a -> Qmax (a * x) (a * y) == a * Qmax x y.
+Proof.
+  intros a x y Ha. destruct (Q.max_spec x y) as [[L E]|[L E]]; rewrite E.
+  - apply Q.max_r. nra.
+  - apply Q.max_l. nra.
+Qed.
+
+Theorem check_plan_scaled_sound : forall (s k : Q) (P Q0 : vec) (Ci Xi : mat) (U V : vec) (N : mat) (delta eps unit : Q),
+  0 < s -> 0 < k ->
+  check_plan P Q0 Ci Xi U V N delta eps unit = true ->
+  let p := vsc (/ s) P in
+  let q := vsc (/ s) Q0 in
+  let C := msc (/ k) Ci in
+  let X := msc (/ s) Xi in
+  let u := vsc (/ k) U in
+  let v := vsc (/ k) V in
+  let X' := msc (/ s) N in
+  let n := length P in
+  let m := length Q0 in
+  let D := dual_val p q u v in
+  (forall i j, 0 <= entry X i j) /\
+  (forall i, (i < n)%nat -> Qabs (rsum X m i - nth i p 0) <= delta / s) /\
+  (forall j, (j < m)%nat -> Qabs (csum X n j - nth j q 0) <= delta / s) /\
+  feasible p q X' /\
+  dual_feasible n m C u v /\
+  (forall X'', feasible p q X'' -> D <= cost n m X'' C) /\
+  (forall opt, is_opt p q C opt ->
+     D <= opt /\ opt <= cost n m X' C /\
+     Qabs (cost n m X C - opt) <= eps * Qmax (unit / (s * k)) opt).
+Proof.
+  intros s k P Q0 Ci Xi U V N delta eps unit Hs Hk H p q C X u v X' n m D.
+  destruct (check_plan_facts P Q0 Ci Xi U V N delta eps unit H) as (F1 & F2 & F3 & F4 & F5 & He & B1 & B2).
+  fold n m in F2, F3, F5, B1, B2.
+  assert (Is : 0 < / s) by (apply Qinv_lt_0_compat; assumption).
+  assert (Ik : 0 < / k) by (apply Qinv_lt_0_compat; assumption).
+  assert (Es : s * / s == 1) by (field; lra).
+  assert (Ek : k * / k == 1) by (field; lra).
+  assert (Lp : length p = n) by (apply vsc_length).
+  assert (Lq : length q = m) by (apply vsc_length).
+  assert (FX' : feasible p q X') by (apply feasible_scale; assumption).
+  assert (DF : dual_feasible n m C u v).
+  { intros i j Hi Hj. unfold u, v, C. rewrite !nth_vsc, entry_msc. specialize (F5 i j Hi Hj). nra. }
+  assert (WD : forall X'', feasible p q X'' -> D <= cost n m X'' C).
+  { intros X'' F. unfold D. rewrite <- Lp, <- Lq. apply weak_duality; [assumption|]. rewrite Lp, Lq. exact DF. }
+  assert (ED : D == / s * / k * dual_val P Q0 U V) by (apply dual_val_vsc).
+  assert (EX : cost n m X C == / s * / k * cost n m Xi Ci) by (apply cost_msc).
+  assert (EX' : cost n m X' C == / s * / k * cost n m N Ci) by (apply cost_msc).
+  split; [|split; [|split; [|split; [|split; [|split]]]]].
+  - intros i j. unfold X. rewrite entry_msc. specialize (F1 i j). nra.
+  - intros i Hi. unfold X, p. rewrite rsum_msc, nth_vsc. specialize (F2 i Hi).
+    apply Qabs_Qle_condition in F2. apply Qabs_Qle_condition. unfold Qdiv. split; nra.
+  - intros j Hj. unfold X, q. rewrite csum_msc, nth_vsc. specialize (F3 j Hj).
+    apply Qabs_Qle_condition in F3. apply Qabs_Qle_condition. unfold Qdiv. split; nra.
+  - exact FX'.
+  - exact DF.
+  - exact WD.
+  - intros opt [L G].
+    assert (O1 : D <= opt) by (apply G; rewrite Lp, Lq; exact WD).
+    assert (O2 : opt <= cost n m X' C) by (rewrite <- Lp, <- Lq; apply L; exact FX').
+    split; [exact O1|]. split; [exact O2|].
+    set (a := / s * / k) in *.
+    assert (Ha : 0 < a) by (unfold a; nra).
+    assert (T : eps * Qmax (unit / (s * k)) D == a * (eps * Qmax unit (dual_val P Q0 U V))).
+    { assert (E1 : unit / (s * k) == a * unit) by (unfold a; field; lra).
+      rewrite E1, ED, Qmax_scale by lra. ring. }
+    apply Qle_trans with (eps * Qmax (unit / (s * k)) D).
+    + apply bracket with (D := D) (U := cost n m X' C); try assumption.
+      * rewrite T, EX, EX'. nra.
+      * rewrite T, EX, ED. nra.
+    + assert (M : Qmax (unit / (s * k)) D <= Qmax (unit / (s * k)) opt) by (apply Q.max_le_compat_l; assumption).
+      nra.
+Qed.
+
 (* when the optimum is attained by some plan Xo, its cost is the infimum *)
 Lemma optimal_plan_is_opt : forall p q C Xo, optimal_plan p q C Xo ->
   is_opt p q C (cost (length p) (length q) Xo C).
